@@ -283,6 +283,14 @@ def verify_instance(inst_, idx):
     rank = sorted({g["index"] for g in inst_["globals"].values() if g["kind"] == "handler"} | {it["handler"] for g in inst_["globals"].values() if g["kind"] == "keyed" for it in g["items"]})
     decl = inst_["declared"]
     args = [ArgV(f"a{i}") for i in range(nargs)]
+    kwn = list(inst_.get("kwnames") or [])
+    npos_ = nargs - len(kwn)
+
+    def passed_intact(ev):
+        """positional parameters passed positionally in order, keyword parameters passed as keywords under their names"""
+        pos_ok = len(ev[2]) == npos_ and all(a is b for a, b in zip(ev[2], args[:npos_]))
+        kw_ok = set(ev[3]) == set(kwn) and all(ev[3][n_] is args[npos_ + j] for j, n_ in enumerate(kwn))
+        return pos_ok and kw_ok and argnames[npos_:] == kwn
 
     def match(i):
         return z3.And(*[inst(f"a{k}", decl[i][k]) for k in range(nargs) if is_dep(decl[i][k])]) if any(is_dep(decl[i][k]) for k in range(nargs)) else z3.BoolVal(True)
@@ -321,11 +329,11 @@ def verify_instance(inst_, idx):
             I.require(match(i), "handler_runs_only_if_its_condition_holds")  # C01 / C10
             others = [match(j) for j in rank if j != i]
             I.require(z3.Not(z3.Or(*others)) if others else True, "no_other_unordered_condition_holds_when_a_handler_runs")  # C10 (F-overlap)
-            I.require(len(ev[2]) == nargs and all(a is b for a, b in zip(ev[2], args)) and not ev[3], "arguments_passed_unchanged")
+            I.require(passed_intact(ev), "arguments_passed_unchanged")
             I.require(len(w.log) == 1, "exactly_one_call")
         elif out[0] == "return" and ev is not None and ev[0] == "fallthrough":
             I.require(z3.Not(z3.Or(*[match(j) for j in rank])), "falls_through_only_if_no_condition_holds")  # C10 / C11 (F-keys)
-            I.require(len(ev[2]) == nargs and all(a is b for a, b in zip(ev[2], args)) and not ev[3], "arguments_passed_unchanged")
+            I.require(passed_intact(ev), "arguments_passed_unchanged")
             I.require(len(w.log) == 1, "exactly_one_call")
         elif out[0] == "raise":
             ms = [match(j) for j in rank]
